@@ -1,4 +1,4 @@
-//! The library monitors over MANY variables (65-200 labels — more than a machine word of them),
+//! The library monitors over MANY variables (65-300 labels — more than a machine word of them),
 //! where truth tables are out of reach: operands are random DNFs, the oracle evaluates the DNFs and
 //! the engine's diagrams pointwise on sampled assignments (biased so that both outcomes occur) and
 //! walks every result (ordered + reduced). Used by C02, C03, C04, C05, C07 and C20.
@@ -23,7 +23,7 @@ struct World {
 
 impl World {
     fn new(rng: &mut Rng) -> World {
-        let n = *rng.pick(&[65usize, 66, 70, 96, 128, 129, 200]);
+        let n = *rng.pick(&[65usize, 66, 70, 96, 128, 129, 200, 255, 256, 257, 300]);
         let stride = 1 + rng.usize(3);
         let mut labels: Vec<usize> = (0..n).map(|i| i * stride + rng.usize(stride)).collect();
         labels.sort();
